@@ -53,7 +53,7 @@ ASSUMPTIONS = [
     'argument names of llf2ecef/ecef2llf are swapped w.r.t. ecef2enuv (first argument acts as longitude); the statement '
     'only demands transposes/orthogonality, so this is recorded as a note, not judged',
 ]
-REQUIRED_CLASSES = ['array-arguments', 'geo:pole', 'geo:near-pole', 'geo:equator', 'geo:near-equator', 'geo:mid', 'geo:seam180', 'geo:axis',
+REQUIRED_CLASSES = ['array-arguments', 'ints-and-results', 'geo:pole', 'geo:near-pole', 'geo:equator', 'geo:near-equator', 'geo:mid', 'geo:seam180', 'geo:axis',
                     'enu:origin-pole', 'enu:origin-equator', 'enu:origin-mid', 'enu:zero-offset', 'enu:offset', 'iso:pair',
                     'aer:zero', 'aer:zenith', 'aer:horizontal', 'aer:generic', 'aer:angles', 'dca:deg', 'dca:rad',
                     'ned:vector', 'ned:array', 'llf:grid']
@@ -683,6 +683,66 @@ def job_array_args(ctx):
     ctx.sample({'array_arguments': {'east': E.tolist(), 'angle_deg': ANG.tolist()}})
 
 
+
+# ------------------------------------------------------------------------------------------------ (h) integer carriers, results kept alive
+def job_ints_and_results(ctx):
+    """(1) Whole-number arguments written as Python ints / numpy integers / integer arrays give what the same numbers give as floats.
+    (2) A result stays what it was while later calls are made (results of two calls never share memory), for every conversion."""
+    F = _F()
+    calls = [
+        ('enu2dca', lambda c: F.enu2dca(c(3), c(4), c(5), c(30)), lambda c: F.enu2dca(c(-7), c(2), c(11), c(200))),
+        ('enu2dca(rad)', lambda c: F.enu2dca(c(3), c(4), c(5), c(2), False), lambda c: F.enu2dca(c(-7), c(2), c(11), c(1), False)),
+        ('dca2enu', lambda c: F.dca2enu(c(3), c(4), c(5), c(30)), lambda c: F.dca2enu(c(-7), c(2), c(11), c(200))),
+        ('enu2aer', lambda c: F.enu2aer(c(3), c(4), c(5)), lambda c: F.enu2aer(c(-7), c(2), c(11))),
+        ('aer2enu', lambda c: F.aer2enu(c(30), c(10), c(100)), lambda c: F.aer2enu(c(200), c(-5), c(7))),
+        ('geodetic2ecef', lambda c: F.geodetic2ecef(c(48), c(11), c(500)), lambda c: F.geodetic2ecef(c(-33), c(151), c(20))),
+        ('ecef2geodetic', lambda c: F.ecef2geodetic(c(4075580), c(931854), c(4801568)), lambda c: F.ecef2geodetic(c(-4646050), c(2553206), c(-3534374))),
+        ('ecef2lla', lambda c: F.ecef2lla(c(4075580), c(931854), c(4801568)), lambda c: F.ecef2lla(c(-4646050), c(2553206), c(-3534374))),
+        ('ecef2enu', lambda c: F.ecef2enu(c(4075580), c(931854), c(4801568), c(48), c(11), c(500)), lambda c: F.ecef2enu(c(4075000), c(932000), c(4802000), c(48), c(11), c(0))),
+        ('enu2ecef', lambda c: F.enu2ecef(c(3), c(4), c(5), c(48), c(11), c(500)), lambda c: F.enu2ecef(c(-70), c(20), c(11), c(-33), c(151), c(0))),
+        ('geodetic2enu', lambda c: F.geodetic2enu(c(49), c(12), c(700), c(48), c(11), c(500)), lambda c: F.geodetic2enu(c(-32), c(150), c(0), c(-33), c(151), c(20))),
+        ('enu2uvw', lambda c: F.enu2uvw(c(3), c(4), c(5), c(48), c(11)), lambda c: F.enu2uvw(c(-7), c(2), c(11), c(-33), c(151))),
+        ('ecef2enuv', lambda c: F.ecef2enuv(c(4075580), c(931854), c(4801568), c(4075000), c(932000), c(4802000), c(48), c(11)),
+         lambda c: F.ecef2enuv(c(1), c(2), c(3), c(0), c(0), c(0), c(-33), c(151))),
+        ('ned2enu', lambda c: F.ned2enu(np.array([c(3), c(4), c(5)])), lambda c: F.ned2enu(np.array([c(-7), c(2), c(11)]))),
+        ('enu2ned', lambda c: F.enu2ned(np.array([c(3), c(4), c(5)])), lambda c: F.enu2ned(np.array([c(-7), c(2), c(11)]))),
+        ('llf2ecef', lambda c: F.llf2ecef(c(1), c(2)), lambda c: F.llf2ecef(c(0), c(3))),
+        ('ecef2llf', lambda c: F.ecef2llf(c(1), c(2)), lambda c: F.ecef2llf(c(0), c(3))),
+    ]
+    for name, call1, call2 in calls:
+        try:
+            ref1 = np.asarray(call1(float), float).copy(); ref2 = np.asarray(call2(float), float).copy()
+        except Exception as ex:
+            ctx.fail(f'{name}: float call raises', 'reference call', f'{type(ex).__name__}: {ex}'[:120], 'a result')
+            continue
+        sc = max(1.0, float(np.abs(ref1).max()))
+        for cn, cv in (('int', int), ('numpy.int64', np.int64)):      # (32-bit integers overflow when metres are squared, single precision resolves 0.5 m at the Earth's radius: not judged)
+            ctx.evals += 1
+            try:
+                out = np.asarray(call1(cv), float)
+            except TypeError:
+                ctx.outcome(('int-refused', name, cn)); continue
+            except Exception as ex:
+                ctx.fail(f'{name}: raises for whole numbers given as another numeric type', f'numbers as {cn}', f'{type(ex).__name__}: {ex}'[:120], ref1.tolist())
+                continue
+            tol = 1e-4 if cn == 'numpy.float32' else 1e-9
+            ok = out.shape == ref1.shape and float(np.abs(out - ref1).max()) <= tol * sc
+            ctx.expect(ok, f'{name}: whole numbers given as ints / numpy integers give the float answer', f'numbers as {cn}', out, ref1, tol * sc)
+        # results kept alive
+        ctx.evals += 1
+        r1 = call1(float)
+        k1 = np.array(r1, float, copy=True)
+        r2 = call2(float)
+        r1b = call1(float)
+        same_after = np.array_equal(np.asarray(r1, float), k1)
+        shares = isinstance(r1, np.ndarray) and isinstance(r2, np.ndarray) and np.shares_memory(r1, r2)
+        ctx.expect(same_after and not shares, f'{name}: a returned result is unchanged by a later call (two results never share memory)', 'call A, keep, call B', np.asarray(r1, float), k1)
+        ctx.expect(np.array_equal(np.asarray(r1b, float), k1), f'{name}: the same call gives the same result after another call', 'call A, call B, call A', np.asarray(r1b, float), k1)
+        ctx.cls('ints-and-results')
+        ctx.seen(('ints', name))
+    ctx.sample({'functions': [c[0] for c in calls]})
+
+
 # ------------------------------------------------------------------------------------------------ driver
 def run(ctx):
     rf.selftest()
@@ -702,6 +762,7 @@ def run(ctx):
     jobs.append(('job_ellipsoids', ()))
     jobs.append(('job_llf', ()))
     jobs.append(('job_array_args', ()))
+    jobs.append(('job_ints_and_results', ()))
     # longest jobs first is irrelevant for determinism (results are merged in job order)
     core.run_jobs(ctx, __name__, jobs)
     ctx.notes['grid_sizes'] = {'geodetic': [len(geo_lats(ctx)), len(geo_lons(ctx)), len(geo_hs(ctx))],
